@@ -115,7 +115,8 @@ def _ber_oid(ids):
 SQUID_MIB = [1, 3, 6, 1, 4, 1, 3495, 1]
 OIDS = [SQUID_MIB + x for x in ([1, 1, 0], [1, 2, 0], [1, 3, 0], [2, 1, 0], [2, 5, 1, 0], [3, 1, 1, 0], [3, 1, 13, 0], [3, 2, 1, 1, 0], [3, 2, 2, 1, 2, 5], [3, 2, 2, 1, 10, 60],
                                 [4, 1, 1, 0], [4, 2, 0], [4, 3, 0], [5, 1, 1, 1, 127, 0, 0, 1], [5, 1, 2, 0], [5, 2, 1, 1, 1, 127, 0, 0, 1], [5, 2, 2, 0], [], [1], [9, 9, 9], [3, 2, 2, 1, 99, 4294967295])] + \
-    [[1, 3, 6, 1, 2, 1, 1, 1, 0], [1, 3], [2, 39, 4294967295, 4294967295], [1, 3, 6, 1, 4, 1, 3495] + [1] * 40, [1, 3, 6, 1, 4, 1, 3495, 1, 5, 1, 1, 1] + [255] * 16]
+    [[1, 3, 6, 1, 2, 1, 1, 1, 0], [1, 3], [2, 39, 4294967295, 4294967295], [1, 3, 6, 1, 4, 1, 3495] + [1] * 40, [1, 3, 6, 1, 4, 1, 3495, 1, 5, 1, 1, 1] + [255] * 16] + \
+    [SQUID_MIB + [1 + (k % 3) * 200] * (n - len(SQUID_MIB)) for k, n in enumerate([62, 63, 64, 65, 66, 67, 127, 128, 129, 130, 200])]   # around MAX_NAME_LEN (64) / MAX_OID_LEN (128)
 PDU_TAGS = {"get": 0xa0, "getnext": 0xa1, "response": 0xa2, "set": 0xa3, "trap": 0xa4, "getbulk": 0xa5, "inform": 0xa6, "trap2": 0xa7}
 
 
